@@ -194,9 +194,14 @@ def c16_4(ctx):
     if not t:
         raise AnalysisError("get_address: sort_keys test not found")
     arms = {}
-    for s, l in cfg.succ[t[0].id]:
-        a = cfg.nodes[s].ast
-        arms[l] = ast.unparse(a) if a is not None else ""
+    st_if = t[0].stmt
+    if isinstance(st_if, ast.If):
+        arms[True] = ast.unparse(ast.Module(body=st_if.body, type_ignores=[]))
+        arms[False] = ast.unparse(ast.Module(body=st_if.orelse, type_ignores=[])) if st_if.orelse else ""
+    else:
+        for s, l in cfg.succ[t[0].id]:
+            a = cfg.nodes[s].ast
+            arms[l] = ast.unparse(a) if a is not None else ""
     if "sorted(sec_hexes_to_use)" in arms.get(True, "") and "sorted(" not in arms.get(False, "x"):
         out.append(ctx.ok(spec, "with sort_keys the child keys enter the script through sorted() (BIP67)", t[0].ast, mod, key="sorted-children"))
     else:
